@@ -28,4 +28,5 @@ def sync_penalty_bits : UInt64 := 4666723172467343360
 def unassigned_penalty_dec : Rat := (100000 : Rat) / 1
 def unassigned_penalty : Rat := (100000 : Rat) / 1
 def unassigned_penalty_bits : UInt64 := 4681608360884174848
+def js_max_no_improve : Int := 100
 end Solvor.Gen.Sched
